@@ -29,7 +29,9 @@ func probeDesign() *m.Design {
 	add("tagged", rt.Obj(rt.Fld("a", m.Prim(m.String), false), rt.Fld("id", m.Prim(m.Int32), false)),
 		&m.Response{Status: 201, TagName: "a", TagValue: "special", Headers: []m.Mapping{{Attr: "id", Wire: "X-C"}}},
 		&m.Response{Status: 200, Headers: []m.Mapping{{Attr: "id", Wire: "X-C"}}})
-	d.Types = append(d.Types, &m.UserType{Name: "Node", Var: "v2", Attr: rt.Obj(rt.Fld("id", m.Prim(m.Boolean), true), rt.Fld("c", m.UserRef("Node"), false))})
+	d.Types = append(d.Types, &m.UserType{Name: "Node", Var: "v2", Result: true, Identifier: "application/vnd.node",
+		Attr:  rt.Obj(rt.Fld("id", m.Prim(m.Boolean), true), rt.Fld("c", m.UserRef("Node"), false)),
+		Views: []*m.View{{Name: "default", Fields: []m.ViewField{{Name: "id"}, {Name: "c"}}}}})
 	add("recur", m.UserRef("Node"), &m.Response{Status: 200, Headers: []m.Mapping{{Attr: "id", Wire: "X-A"}}})
 	d.Services = []*m.Service{s}
 	return d
